@@ -34,6 +34,7 @@ CLASS_SPECS = [
     dict(cls='both2', slug='both2', inputs=[dict(ref='a', how='name'), dict(ref='g:a', how='name')]),
     dict(cls='gb', slug='g:b'),
     dict(cls='mi', slug='mi', inputs=[dict(ref='a', how='name')], pulls=['a'], meta_inherit=True),
+    dict(cls='selfpat', slug='h:a', inputs=[dict(ref='~(.*:)?a', how='name')]),
 ]
 CLSNAME = {s['cls']: 'R' + s['cls'].capitalize() + 'Task' for s in CLASS_SPECS}
 
@@ -64,12 +65,15 @@ def menus(tier):
     root_tasks = [[], ['trainx'], ['a'], ['c']]
     p1 = []
     for tasks in (['a', 'b'], ['a', 'b', 'z'], ['a', 'c'], ['b'], ['a', 'w', 'pat'], ['cy1', 'cy2'], ['a', 'b', 'bsub'],
-                  ['a', 'w', 'both', 'both2'], ['a', 'both'], ['a', 'c', 'gb'], ['a', 'mi']):
+                  ['a', 'w', 'both', 'both2'], ['a', 'both'], ['a', 'c', 'gb'], ['a', 'mi'], ['a', 'selfpat']):
         for vals in ({}, {'x': 1}):
             for uses in ([], [U('P2')], [U('P2', 'n')]):
                 if tasks in (['b'], ['cy1', 'cy2']) and vals:
                     continue
                 p1.append(dict(tasks=tasks, excl=[], vals=vals, uses=uses))
+    # excluding a class does not exclude the classes derived from it
+    p1.append(dict(tasks=['a', 'b', 'bsub'], excl=['b'], vals={'x': 1}, uses=[]))
+    p1.append(dict(tasks=['a', 'b', 'bsub'], excl=['b'], vals={'x': 1}, uses=[U('P2', 'n')]))
     p2 = []
     for tasks in (['a'], ['trainx', 'd'], ['ge', 'f'], ['a', 'b']):
         for excl in ([], ['a']):
@@ -281,7 +285,11 @@ def observe(case, idx, seed):
             except Exception:  # noqa  (judged on the second build below)
                 pass
         try:
-            chain = Config(work / 'data', root, context=context).chain()
+            # tasks, wiring and parameter values are the same in name mode - as long as no file is mounted twice (name mode
+            # identifies a task by class and config NAME: two mounts of one file are then one task by design)
+            files = [m['f'] for m in case.get('mounts', [])]
+            once = len(files) == len(set(files)) and bool(files)
+            chain = Config(work / 'data', root, context=context).chain(parameter_mode=not (once and rng.random() < 0.3))
             err = None
         except Exception as e:  # noqa
             chain, err = None, e
